@@ -408,8 +408,10 @@ def tree_configs(tier):
     if tier == "quick":
         return [("tree-1d-h5", tree_constants(1, 5, range(12))), ("tree-2d-h3", tree_constants(2, 3, range(11))),
                 ("tree-2d-h4", tree_constants(2, 4, POOL_2D_H4)), ("tree-3d-h3", tree_constants(3, 3, POOL_3D_H3)),
-                ("tree-1d-h4-multi", tree_constants(1, 4, range(6), maxper=2, bss=(1, 2, 3, 7)))]
-    return [("tree-1d-h5", tree_constants(1, 5, range(16), bss=(1, 2, 3, 4, 5, 7, 16, 17), emit_every=7)),
+                ("tree-1d-h4-multi", tree_constants(1, 4, range(6), maxper=2, bss=(1, 2, 3, 4, 7))),
+                ("tree-3d-h3-multi", tree_constants(3, 3, POOL_3D_H3[:5], maxper=2, bss=(1, 4)))]
+    return [("tree-3d-h3-multi", tree_constants(3, 3, POOL_3D_H3[:6], maxper=2, bss=(1, 4, 20))), ("tree-2d-h3-multi", tree_constants(2, 3, range(9), maxper=2, maxparts=12, bss=(8, 3))),
+            ("tree-1d-h5", tree_constants(1, 5, range(16), bss=(1, 2, 3, 4, 5, 7, 16, 17), emit_every=7)),
             ("tree-2d-h3", tree_constants(2, 3, range(16), bss=(1, 2, 3, 5, 16, 17), emit_every=7)),
             ("tree-1d-h6", tree_constants(1, 6, POOL_1D_H6 + [7, 20, 21, 24])), ("tree-2d-h4", tree_constants(2, 4, POOL_2D_H4 + [1, 2, 62])),
             ("tree-3d-h3", tree_constants(3, 3, POOL_3D_H3 + [1, 8, 57, 60])), ("tree-3d-h4", tree_constants(3, 4, POOL_3D_H4 + [1, 8, 448])),
@@ -672,6 +674,8 @@ def check_c01(run):
     trace_campaign(run, "C01", run.tier, events=4)
     # dense trees (every leaf occupied, resp. a fully occupied 6^3 block whose central cells own the maximal interaction list), several particles in some leaves
     trace_campaign(run, "C01", run.tier, events=8, classes=DENSE_CLASSES[run.tier])
+    # dense 3-D and 4-D blocks with the counting kernel (closed-form exactly-once; 4-D targets own up to 1215 sources)
+    matrix_run(run, DENSE_CELLS, 6 if run.tier == "quick" else 30, ["ExactlyOnce", "StoredOnce", "Crash"])
     run.coverage["rule"] = FMM_RULE + "; plus code->spec trace validation: recorded kernel-call traces of random trees (1-D height 7-8, 2-D height 5-6, 3-D height 4-5, up to 60 particles) must be accepted by FmmTrace.tla"
     run.coverage["exhaustive"] = True
     run.assumptions += FMM_ASSUME
@@ -1061,6 +1065,9 @@ def check_c09(run):
     cs.append(("tsm-4d-h3", fmm_constants(4, 3, POOL_4D_H3[:2 if q else 3], mode="tsm", bss=(1, 2))))
     cs.append(("tsm-1d-h4-per", fmm_constants(1, 4, [0, 3, 4, 7], mode="tsm", periodic=True, stops=(1,), maxparts=3, bss=(1, 2))))
     run_fmm_configs(run, "C09", cs)
+    # target/source trees with the automatic block size (TbfBlockSizeFinder::EstimateTsm), other types and orderings: counting-kernel cells
+    matrix_run(run, [dict(DIMV=1, REAL_T="double", ORDERV=0, AUTOBS=1, REBUILDV=0, EXECV=2), dict(DIMV=3, REAL_T="float", ORDERV=0, AUTOBS=1, REBUILDV=1, EXECV=2),
+                     dict(DIMV=2, REAL_T="double", ORDERV=1, AUTOBS=1, REBUILDV=0, EXECV=2), DENSE_CELLS[2]], 30 if q else 150, ["ExactlyOnce", "StoredOnce", "InRightLeaf", "Crash"])
     # code -> spec: target/source sessions on large random trees (sources and targets of different shapes, staged executes, moves + rebuild)
     trace_campaign(run, "C09", run.tier, modes=(1,), events=4)
     # the OpenMP target/source executor under the schedules of C03
@@ -1166,6 +1173,26 @@ def check_c14(run):
     if recs:
         run.sample({"memblock_history": [r for r in res.lines if r.get("k") == "mem"][len(recs) // 2]})
     # cell and particle groups of real trees: byte copies viewed through the raw-memory constructors (after execution, so expansions are non-zero)
+    # group containers with heterogeneous element types (multipole / local types of different sizes, data type != coordinate type, 0-4 result values)
+    gv = need(build("groupview_asan", "groupview.cpp", [], variant="asan"), run)
+    rc, out, err = run_bin(gv, [run.seed, 20 if q else 120], timeout=900)
+    mism, summary = parse_harness_output(out)
+    if summary is None:
+        if rc in (98, 99) or "Sanitizer" in err or "runtime error" in err:
+            first = [l for l in err.splitlines() if "ERROR: AddressSanitizer" in l or "runtime error" in l or "SUMMARY" in l]
+            run.violation("Sanitizer:groupview", "sanitizer report while groups of heterogeneous types were copied and viewed: " + " | ".join(first[:3])[:400],
+                          run.write_replay("Sanitizer-groupview", {"kind": "groupview", "args": [run.seed, 20 if q else 120]}))
+        else:
+            raise vlib.HarnessError("groupview failed (exit %s): %s" % (rc, (err or out)[-300:]))
+    else:
+        run.add_harness("C14-groupview", summary, rc)
+        run.coverage["evaluations"] += summary.get("checks", 0)
+        seen = set()
+        for kind, key, text in mism:
+            if key in seen:
+                continue
+            seen.add(key)
+            run.violation(kind + ":" + key, text, run.write_replay(kind + "-" + key, {"kind": "groupview", "args": [run.seed, 20 if q else 120], "key": key}))
     run_fmm_configs(run, "C14", std_configs(run.tier, small=True)[:3] + [("1d-h5-multi", fmm_constants(1, 5, POOL_1D_H5[:5], maxper=2, bss=(1, 2, 20)))])
     run.coverage["rule"] = ("one case = one history (reset with a count vector; optionally a second reset that reuses / regrows the buffer, move construction+assignment, byte copy + raw-memory view) "
                             "of one of 8 sub-block layouts explored by TLC on MemBlock.tla (Disjoint, InBounds, AccessorInBlock, RowsDisjoint, Aligned, TrailerRoundTrip, NoDoubleFree) and replayed on "
@@ -1174,6 +1201,12 @@ def check_c14(run):
     run.coverage["exhaustive"] = True
     run.assumptions += ["element sizes 1..4096 bytes and item counts up to the listed bounds (not 10^4); at most one sub-block takes an arbitrary count per reset",
                         "TbfMemoryMultiVVector is not instantiated by the library's containers and is not covered"]
+
+
+# dense trees with the counting kernel: a fully occupied 6^Dim block (full sibling sets, maximal interaction lists - 189 sources per target in 3-D,
+# 1215 in 4-D - delivered in one wrapper call or cut by small groups)
+DENSE_CELLS = [dict(DIMV=4, REAL_T="double", ORDERV=0, AUTOBS=0, REBUILDV=0, EXECV=0, DENSEV=1), dict(DIMV=3, REAL_T="double", ORDERV=0, AUTOBS=0, REBUILDV=1, EXECV=0, DENSEV=1),
+               dict(DIMV=4, REAL_T="double", ORDERV=0, AUTOBS=0, REBUILDV=0, EXECV=2, DENSEV=1)]
 
 
 def matrix_cells(tier):
@@ -1196,7 +1229,8 @@ def matrix_cells(tier):
             cells.append(dict(DIMV=dim, REAL_T="float", DATA_T="double", ORDERV=0, AUTOBS=0, REBUILDV=1, EXECV=0))
             cells.append(dict(DIMV=dim, REAL_T="double", DATA_T="float", ORDERV=0, AUTOBS=1, REBUILDV=1, EXECV=2))
             cells.append(dict(DIMV=dim, REAL_T="double", ORDERV=0, AUTOBS=0, REBUILDV=0, EXECV=0, NRHS=0))
-        return cells
+        return cells + DENSE_CELLS + [dict(DIMV=2, REAL_T="float", ORDERV=0, AUTOBS=0, REBUILDV=1, EXECV=0, DENSEV=1), dict(DIMV=3, REAL_T="double", ORDERV=0, AUTOBS=0, REBUILDV=0, EXECV=1, DENSEV=1),
+                                     dict(DIMV=4, REAL_T="float", ORDERV=0, AUTOBS=0, REBUILDV=0, EXECV=1, DENSEV=1)]
     # quick: a covering subset - every dimension with every ordering, every pair (dimension, executor), (ordering, rebuild), (real type, auto block size)
     k = 0
     for dim in (1, 2, 3, 4):
@@ -1214,7 +1248,7 @@ def matrix_cells(tier):
     cells.append(dict(DIMV=3, REAL_T="double", ORDERV=1, AUTOBS=1, REBUILDV=1, EXECV=2))
     cells.append(dict(DIMV=2, REAL_T="double", ORDERV=0, AUTOBS=0, REBUILDV=0, EXECV=0, NRHS=0))
     cells.append(dict(DIMV=3, REAL_T="float", ORDERV=0, AUTOBS=1, REBUILDV=0, EXECV=1, NRHS=0))
-    return cells
+    return cells + DENSE_CELLS
 
 
 def matrix_run(run, cells, iters, kinds=None):
@@ -1439,6 +1473,14 @@ def cmd_replay(args):
         print(out[-3000:])
         mism, summary = parse_harness_output(out)
         return 1 if mism else 0
+    if obj.get("kind") == "groupview":
+        gv, err = build("groupview_asan", "groupview.cpp", [], variant="asan")
+        if gv is None:
+            log("harness does not compile: " + str(err))
+            return 2
+        rc, out, errtxt = run_bin(gv, obj["args"], timeout=900)
+        print("\n".join([l for l in out.splitlines() if obj.get("key", "MISMATCH") in l][:10]), out[-300:], errtxt[-1500:])
+        return 1 if rc != 0 else 0
     if obj.get("kind") == "tsmwrap":
         path, err = build("replay_fmm_%d_0_64_tsmwrap%d" % (obj["dim"], obj["v"]), "replay_fmm.cpp", ["DIMV=%d" % obj["dim"], "PERIODICV=0", "CAPV=64", "TSMWRAPV=%d" % obj["v"]])
         if path is None:
